@@ -3,6 +3,7 @@
 from __future__ import annotations
 
 import json
+import re
 from datetime import datetime as dt
 
 from checks import gwy_common as GC
@@ -55,6 +56,25 @@ def judge_snapshot(t: E.Tally, state, gwy, w, include_expired: bool, rep: dict, 
                 pass
 
 
+_FRAG = re.compile(r" I --- (\d\d:\d{6}) \S+ \S+ (000A|22C9) ")
+
+
+def _frag(a: dict, b: dict, ga=None, gb=None) -> str:
+    """A tag for two recognisable causes (each a finding of its own):
+    ':array-fragment' - the packet sets differ ONLY in I|000A / I|22C9 packets (the codes the gateway merges with a preceding array
+    of the same sender when they arrive within 3 s: the merged tail takes the array's slot and context);
+    ':eavesdropped-class-differs' - they differ ONLY in packets sent by devices that the two gateways (eavesdropping on) hold as
+    different classes."""
+    lines = [a[k] for k in a if b.get(k) != a[k]] + [b[k] for k in b if k not in a]
+    if lines and all(_FRAG.search(ln) for ln in lines):
+        return ":array-fragment"
+    if lines and ga is not None and gb is not None:
+        srcs = {ln.split("#")[0].split()[3] for ln in lines}
+        if all(type(ga.device_by_id.get(x)).__name__ != type(gb.device_by_id.get(x)).__name__ for x in srcs):
+            return ":eavesdropped-class-differs"
+    return ""
+
+
 def cycle(t: E.Tally, w, gwy, eav: bool, include_expired: bool, rep: dict, where: str) -> None:
     try:
         s1 = gwy.get_state(include_expired=include_expired)
@@ -63,6 +83,17 @@ def cycle(t: E.Tally, w, gwy, eav: bool, include_expired: bool, rep: dict, where
         return
     t.n += 1
     now = w.now()
+    # taken again at once (no packet, no time in between - only the callbacks the first call left on the loop) the schema is the same
+    try:
+        w.loop.quiesce(w.loop.time())
+        again = gwy.get_state(include_expired=include_expired)
+        if json.dumps(again[0], sort_keys=True) != json.dumps(s1[0], sort_keys=True):
+            d = _sdiff(s1[0], again[0])
+            t.bad(f"C16:schema-differs-when-snapshot-is-retaken-at-once:{d.split(': ')[0].rsplit('/', 1)[-1]}", f"{where} include_expired={include_expired}: {d}", rep)
+            s1 = again  # (the rest is judged on the settled snapshot)
+    except Exception as e:  # noqa: BLE001
+        t.bad(f"C16:get_state-raises:{type(e).__name__}", f"{where} (second call): {e}", rep)
+        return
     judge_snapshot(t, s1, gwy, w, include_expired, rep, where)
     if include_expired:
         # expired packets are transient by design (the first read that finds one expired drops it): the fixpoint is
@@ -97,7 +128,7 @@ def cycle(t: E.Tally, w, gwy, eav: bool, include_expired: bool, rep: dict, where
                 chg = [k for k in s1[1] if k in s2[1] and s1[1][k] != s2[1][k]]
                 what = f"lost {len(lost)} (e.g. {s1[1][lost[0]][4:50]!r})" if lost else (f"gained {len(new)}" if new else f"changed {len(chg)}")
                 code = (s1[1][lost[0]] if lost else s2[1][new[0]] if new else s1[1][chg[0]]).split()[-3 if "#" not in (s1[1][lost[0]] if lost else "x") else -3]
-                t.bad(f"C16:packets-not-a-fixpoint:{'with' if with_schema else 'no'}-schema:{'lost' if lost else 'gained' if new else 'changed'}", f"{where} include_expired={include_expired}: {len(s1[1])} packets saved, fresh gateway reports {len(s2[1])}: {what}", rep)
+                t.bad(f"C16:packets-not-a-fixpoint:{'with' if with_schema else 'no'}-schema:{'lost' if lost else 'gained' if new else 'changed'}{_frag(s1[1], s2[1], gwy if eav else None, g2)}", f"{where} include_expired={include_expired}: {len(s1[1])} packets saved, fresh gateway reports {len(s2[1])}: {what}", rep)
             if not eav and with_schema and json.dumps(s2[0], sort_keys=True) != json.dumps(s1[0], sort_keys=True):
                 t.bad("C16:schema-not-a-fixpoint:with-schema", f"{where}: schema of the fresh gateway differs: {_sdiff(s1[0], s2[0])}", rep)
             # restoring the same snapshot again changes nothing
@@ -105,7 +136,7 @@ def cycle(t: E.Tally, w, gwy, eav: bool, include_expired: bool, rep: dict, where
             w2.loop.quiesce(w2.loop.time() + 2)
             s3 = g2.get_state(include_expired=include_expired)
             if r[0] != "ok" or not same(s2[1], s3[1]) or json.dumps(s3[0], sort_keys=True) != json.dumps(s2[0], sort_keys=True):
-                t.bad("C16:second-restore-changes-state", f"{where}: restoring the snapshot a second time: {r[0]}; packets {len(s2[1])}->{len(s3[1])}", rep)
+                t.bad("C16:second-restore-changes-state" + _frag(s2[1], s3[1]), f"{where}: restoring the snapshot a second time: {r[0]}; packets {len(s2[1])}->{len(s3[1])}", rep)
         finally:
             w2.close()
     # the snapshot taken the moment start(cached_packets=...) returns (no further turn of the event loop) is complete too
@@ -123,7 +154,7 @@ def cycle(t: E.Tally, w, gwy, eav: bool, include_expired: bool, rep: dict, where
             t.bad(f"C16:fresh-gateway-does-not-start:{r3[0]}:immediate", f"{where}: start(cached_packets) + get_state: {r3}", rep)
         elif not same(s1[1], r3[1][1]):
             lost = sorted(set(s1[1]) - set(r3[1][1]))
-            t.bad("C16:packets-not-a-fixpoint:snapshot-on-return-of-start" + (":last-packet" if lost == [max(s1[1])] else ""), f"{where} include_expired={include_expired}: {len(s1[1])} packets saved; get_state() called as soon as start(cached_packets=...) returned reports {len(r3[1][1])} (missing {[s1[1][k][4:40] for k in lost][:2]})", rep)
+            t.bad("C16:packets-not-a-fixpoint:snapshot-on-return-of-start" + (":last-packet" if lost == [max(s1[1])] else "") + _frag(s1[1], r3[1][1], gwy if eav else None, g3), f"{where} include_expired={include_expired}: {len(s1[1])} packets saved; get_state() called as soon as start(cached_packets=...) returned reports {len(r3[1][1])} (missing {[s1[1][k][4:40] for k in lost][:2]})", rep)
         w3.close()
     except Exception as e:  # noqa: BLE001
         t.bad(f"C16:fresh-gateway-does-not-start:{type(e).__name__}:immediate", f"{where}: {str(e)[:160]}", rep)
@@ -133,7 +164,7 @@ def cycle(t: E.Tally, w, gwy, eav: bool, include_expired: bool, rep: dict, where
     try:
         s4 = gwy.get_state(include_expired=include_expired)
         if r[0] != "ok" or not same(s1[1], s4[1]) or (not eav and json.dumps(s4[0], sort_keys=True) != json.dumps(s1[0], sort_keys=True)):
-            t.bad("C16:restore-into-same-gateway-changes-state", f"{where}: {r[0]}; packets {len(s1[1])}->{len(s4[1])}", rep)
+            t.bad("C16:restore-into-same-gateway-changes-state" + _frag(s1[1], s4[1]), f"{where}: {r[0]}; packets {len(s1[1])}->{len(s4[1])}; schema {_sdiff(s1[0], s4[0]) if not eav else '-'}", rep)
     except Exception as e:  # noqa: BLE001
         t.bad(f"C16:get_state-raises:{type(e).__name__}", f"{where} (after restoring into the same gateway): {e}", rep)
 
@@ -156,6 +187,20 @@ def run_history(t: E.Tally, lines: list, eav: bool, at: set[int], rep: dict, lab
                     cycle(t, w, gwy, eav, inc, rep, f"{label} after line {k}")
     finally:
         w.close()
+
+
+def _late_targets(lines: list, j: int, adjacent: bool = True) -> list[int]:
+    """Where packet j may land: after its successor, and after the next packet that competes for its slot (same verb, source and
+    code) - the collision a store keyed on (code, verb, context) has to get right."""
+    f = lines[j][2].split()
+    out = [j + 1] if adjacent else []
+    for key_of in (lambda g: (g[0], g[2], g[-3]), lambda g: (g[0], g[2], g[-3], g[-1][:2])):
+        for k in range(j + 1, len(lines)):
+            if key_of(lines[k][2].split()) == key_of(f):
+                if k not in out:
+                    out.append(k)
+                break
+    return out
 
 
 def shard(arg) -> E.Tally:
@@ -182,6 +227,16 @@ def shard(arg) -> E.Tally:
         hist = GC.retime(lines[:mid] + seg + lines[mid:])
         run_history(t, hist, eav, {mid + len(seg), len(hist) - 1}, {"log": rel, "eav": eav, "edit": "writes"}, f"{rel}[+{len(extra)} RQ/W frames]")
         t.by["rq_w_frames"] += len(extra)
+    elif kind == "late":
+        # one packet overtaken: it is delivered after the one stamped after it, each keeping its own timestamp (timestamps given by
+        # a remote MQTT gateway, or a curated log: arrival order is not timestamp order)
+        for j in range(n - 1):
+            if j % nsh != i:
+                continue
+            for k in _late_targets(lines, j, adjacent=n <= 60):
+                hist = lines[:j] + lines[j + 1 : k + 1] + [lines[j]] + lines[k + 1 :]
+                run_history(t, hist, eav, {k, len(hist) - 1}, {"log": rel, "eav": eav, "edit": f"late@{j}>{k}"}, f"{rel}[late@{j}>{k}]")
+                t.by["overtaken"] += 1
     else:
         for j, (lab, pos, hist) in enumerate(GC.single_edits(lines, splice_from=None, fields=False)):
             if j % nsh != i or lab.startswith("swap"):
@@ -205,6 +260,12 @@ def plan(quick: bool):
         for eav in (False, True):
             for i in range(nsh):
                 jobs.append(("prefix", rel, eav, i, nsh, quick))
+    for rel in GC.more_logs():
+        n = len(GC.log(rel))
+        nsh = max(1, min(4, n // 40))
+        for eav in (False, True):
+            for i in range(nsh):
+                jobs.append(("prefix", rel, eav, i, nsh, quick))
     for rel in logs:
         if len(GC.log(rel)) <= 300:
             for eav in (False, True):
@@ -216,6 +277,13 @@ def plan(quick: bool):
         for eav in (False, True):
             for i in range(nsh):
                 jobs.append(("edit", rel, eav, i, nsh, quick))
+    for rel in logs:
+        n = len(GC.log(rel))
+        if n <= (300 if quick else 600):
+            nsh = max(1, n // 10)
+            for eav in (False, True):
+                for i in range(nsh):
+                    jobs.append(("late", rel, eav, i, nsh, quick))
     return jobs
 
 
@@ -242,6 +310,10 @@ def replay(rep: dict):
         run_history(t, lines, rep["eav"], set(rep["at"]), rep, rep["log"])
     elif rep["edit"] == "writes":
         t.merge(shard(("writes", rep["log"], rep["eav"], 0, 1, True)))
+    elif rep["edit"].startswith("late@"):
+        j, k = (int(x) for x in rep["edit"][5:].split(">"))
+        hist = lines[:j] + lines[j + 1 : k + 1] + [lines[j]] + lines[k + 1 :]
+        run_history(t, hist, rep["eav"], {k, len(hist) - 1}, rep, f"{rep['log']}[late@{j}>{k}]")
     else:
         for lab, pos, hist in GC.single_edits(lines, splice_from=None, fields=False):
             if lab == rep["edit"]:
